@@ -39,10 +39,16 @@ def gen(rng, scenario, tier):
     st = rng.choice(["tstat", "stdev"])
     cfg = {"cls": cls, "detect_batch": rng.choice([1, 2, 3]), "statistic": st,
            "significance": rng.choice([0.05, 0.2, 0.5]) if st == "tstat" else rng.choice([0.5, 1.0, 2.0]),
-           "subsets": rng.randint(2, 5), "divergence": rng.choice(["H", "KL", "TV"])}
+           "subsets": rng.randint(2, 5), "divergence": rng.choice(["H", "KL", "TV", "AKL"])}
+    if st == "tstat" and rng.random() < 0.08:
+        cfg["significance"] = 0.0      # legal extreme: an infinite t quantile
     d = 1 if cls == "CDBD" else rng.randint(1, 3)
     bs, drifts = workload.batches(rng, rng.randint(6, 23), d, 8, 60, drift_rate=rng.choice([0.15, 0.3]),
                                   nd=rng.choice([3, 4]), integer=rng.random() < 0.1)
+    if rng.random() < 0.1:
+        # one feature sits on a huge offset (its spread is tiny relative to its magnitude, but it is not constant)
+        off = rng.choice([1e6, -1e6, 1e8])
+        bs = [[[row[0] + off] + row[1:] for row in b] for b in bs]
     ev = [["ref", bs[0], np_seed(rng)]]
     int_ref = rng.random() < 0.15
     if int_ref:
@@ -64,6 +70,8 @@ def build(cfg):
     kw = {k: v for k, v in cfg.items() if k != "cls"}
     if kw["divergence"] == "TV":
         kw["divergence"] = H.total_variation
+    if kw["divergence"] == "AKL":
+        kw["divergence"] = H.smoothed_kl
     return getattr(dd, cfg["cls"])(**kw)
 
 
@@ -208,7 +216,7 @@ def _run(case, ctx, rec):
         elif rec.log:
             _fail(ctx, "bootstrap", "unexpected_bootstrap", f"{where}: bootstrap subsets drawn on a batch that does not need them", cfg)
         # ---- symmetry for equal sizes (roles swapped in a second detector)
-        if spec.j == 1 and db != 1 and len(ref_before) == len(X) and not got:
+        if spec.j == 1 and db != 1 and len(ref_before) == len(X) and not got and cfg["divergence"] != "AKL":
             det2 = build(cfg)
             det2.set_reference(X.copy())
             det2.update(ref_before.copy())
